@@ -31,7 +31,7 @@ FETCHERS = ['StreamEnd', 'Directive', 'DocumentStart', 'DocumentEnd', 'FlowSeque
             'Literal', 'Folded', 'Single', 'Double', 'Plain', 'NoToken']
 # set an entry to True when the corresponding fix_proposals/<id>.diff has been applied to /repo (the model then describes the
 # repaired code; with a stale flag the check still passes and prints a spec-drift note)
-MODEL_FIXES = {'FixD1': False, 'FixD10': False}
+MODEL_FIXES = {'FixD1': True, 'FixD10': True}     # /repo commits 58d44d5, a14b348
 LIMIT = 60.0           # watchdog: seconds without a result for one input (inputs take milliseconds); confirmed by a second run
 
 
